@@ -44,6 +44,7 @@ class Gen:
         self.epoch_views: set[int] = set()
         self.readonly: set[int] = set()
         self.scopes: list = []
+        self.stale: set[int] = set()  # views kept across an epoch boundary: observed (and null_grad-ed) but never used again
         self.lowprec = False  # a float16/32 tensor exists: avoid divisions (their gradients are inexact in low precision)
         self.unguarded: set[int] = set()  # operands/results of ops recorded while the memory guard was off
 
@@ -52,7 +53,7 @@ class Gen:
         return 0  # provisional; `emit` assigns the real handle id
 
     def live(self):
-        return list(self.np.H.keys())
+        return [h for h in self.np.H.keys() if h not in self.stale]
 
     def arr(self, h):
         return self.np.H[h]
@@ -62,7 +63,7 @@ class Gen:
         snap = None
         if s["k"] in ("op", "leaf"):
             s["h"] = self.nh + 1
-        if s["k"] in ("setitem", "aug", "uout"):
+        if s["k"] in ("setitem", "aug", "uout", "setshape"):
             snap = {h: a.copy() for h, a in self.np.H.items()}
         try:
             with np.errstate(all="raise"):
@@ -484,7 +485,13 @@ class Gen:
                 return False
         elif f == "broadcast_to":
             s["sh"] = [r.choice([1, 2])] + sh
-        ok = self.emit(s, const=self.const[a], view=True)
+        vc = self.const[a]
+        if f in ("reshape", "transpose", "swapaxes", "squeeze", "expand_dims", "ravel", "moveaxis") and \
+                r.random() < self.p.get("p_kw_const_view", 0.0) and A.dtype.kind == "f":
+            flag = r.choice(["true", "false"])
+            s["kw"] = {"constant": flag}
+            vc = flag == "true"
+        ok = self.emit(s, const=vc, view=True)
         if ok:
             h = s["h"]
             res = self.arr(h)
@@ -507,6 +514,13 @@ class Gen:
         if T.dtype.kind in "iub":
             return False  # writing fractions into integer memory truncates: outside the exact (rational) fragment
         kind = r.choice(self.p.get("inplace", ["setitem", "setitem", "aug", "uout"]))
+        if kind == "setshape":
+            if any(q != t and self.np.H[q] is T for q in self.np.H):
+                return False  # NumPy handed the same array object to two handles (no-op squeeze): F-C04-1 territory
+            n = T.size
+            opts = [[n], [-1], [1, n], [n, 1]] + [[d, n // d] for d in (2, 3) if n and n % d == 0]
+            s = {"k": "setshape", "t": t, "sh": r.choice(opts)}
+            return self.emit(s)
         if kind == "setitem":
             x = r.random()
             if x < 0.6:
@@ -552,6 +566,8 @@ class Gen:
             except ValueError:
                 return False
             s = {"k": "uout", "f": f, "a": ops, "out": t}
+            if r.random() < self.p.get("p_kw_const_out", 0.0):
+                s["kw"] = {"constant": r.choice(["true", "false"])}
             if r.random() < 0.5:
                 msh = self.sub_broadcast_shape(sh)
                 n = int(np.prod(msh)) if msh else 1
@@ -728,8 +744,18 @@ class Gen:
 
     def end_epoch_drop_views(self):
         """v1 scope: views never survive an epoch boundary (DESIGN C04 'Blind')."""
+        for h in sorted(self.stale):          # stale views of the previous epoch go now
+            if h in self.np.H:
+                self.prog.append({"k": "drop", "h": h})
+                del self.np.H[h]
+        self.stale.clear()
         for h in sorted(self.epoch_views):
             if h in self.np.H:
+                if self.rng.random() < self.p.get("p_keep_stale", 0.0):
+                    self.stale.add(h)
+                    if self.rng.random() < 0.5:
+                        self.prog.append({"k": "nullgrad", "h": h})
+                    continue
                 self.prog.append({"k": "drop", "h": h})
                 del self.np.H[h]
         self.epoch_views.clear()
@@ -751,6 +777,11 @@ def gen_program(seed: int, profile: dict) -> list[dict]:
             x = rng.random()
             wf, wv, wi = profile.get("w_func", 0.5), profile.get("w_view", 0.3), profile.get("w_inplace", 0.2)
             tot = wf + wv + wi
+            if profile.get("p_scope") and not g.tracking() and rng.random() < 0.12:
+                h = g.pick()
+                if h is not None:
+                    g.prog.append({"k": "backward", "h": h})   # inside no_autodiff: must do nothing at all
+                continue
             ps = profile.get("p_scope", 0.0)
             if ps and rng.random() < ps:
                 if g.scopes and rng.random() < 0.5:
@@ -777,6 +808,13 @@ def gen_program(seed: int, profile: dict) -> list[dict]:
             done += bool(ok)
         while g.scopes:
             g.exit_scope()
+        for _ in range(3):
+            if rng.random() < profile.get("p_drop", 0.0) and len(g.live()) > 2:
+                h = g.pick()
+                if h is not None:
+                    g.prog.append({"k": "drop", "h": h})
+                    del g.np.H[h]
+                    g.epoch_views.discard(h)
         if profile.get("backward", True):
             nterm = rng.randint(1, profile.get("max_terminals", 1))
             Ls = []
@@ -820,7 +858,8 @@ PROFILES = {
     "c01": dict(functional=["bin", "bin", "un", "power", "red", "red", "matmul", "where", "join", "gathercopy"],
                 w_func=0.75, w_view=0.25, w_inplace=0.0, max_leaves=3, max_steps=8, p_const_leaf=0.2),
     "c04": dict(functional=["bin", "un", "red"], w_func=0.25, w_view=0.4, w_inplace=0.35, max_leaves=2,
-                max_steps=8, backward=False, p_const_leaf=0.2),
+                max_steps=8, backward=False, p_const_leaf=0.2, p_kw_const_view=0.08, p_kw_const_out=0.15,
+                inplace=["setitem", "setitem", "aug", "uout", "setshape"]),
     "c05": dict(functional=["bin", "bin", "un", "red", "matmul", "gathercopy"], w_func=0.35, w_view=0.3, w_inplace=0.35,
                 max_leaves=2, max_steps=8, p_const_leaf=0.15),
     "c06": dict(functional=["bin", "un", "red"], w_func=0.4, w_view=0.6, w_inplace=0.0, max_leaves=2, max_steps=7,
@@ -829,7 +868,8 @@ PROFILES = {
                 max_steps=5, max_epochs=2, max_terminals=3, between_steps=3, p_const_leaf=0.15, w_misc=0.1,
                 misc=["clear", "nullgrad"], p_clear_instead=0.2),
     "c10": dict(functional=["bin", "bin", "un", "power", "red", "matmul", "where", "join", "gathercopy"], w_func=0.55,
-                w_view=0.25, w_inplace=0.2, max_leaves=3, max_steps=8, p_const_leaf=0.4, p_kw_const=0.3, p_int_leaf=0.2),
+                w_view=0.25, w_inplace=0.2, max_leaves=3, max_steps=8, p_const_leaf=0.4, p_kw_const=0.3, p_int_leaf=0.2,
+                p_kw_const_out=0.3, p_kw_const_view=0.05),
     "c12": dict(functional=["bin", "bin", "un", "power", "red", "matmul", "where", "join", "gathercopy"], w_func=0.6,
                 w_view=0.25, w_inplace=0.15, max_leaves=3, max_steps=7, p_const_leaf=0.15, max_epochs=2, p_seed=0.5,
                 p_nonscalar_L=0.5, editgrad=True, w_misc=0.1, misc=["copy"]),
@@ -841,5 +881,6 @@ PROFILES = {
     "c15": dict(functional=["bin", "bin", "un", "red", "matmul", "gathercopy"], w_func=0.4, w_view=0.3, w_inplace=0.3,
                 max_leaves=2, max_steps=9, p_const_leaf=0.2, p_scope=0.3, max_epochs=2),
     "c07": dict(functional=["bin", "un", "red", "matmul", "gathercopy"], w_func=0.5, w_view=0.3, w_inplace=0.2, max_leaves=2,
-                max_steps=5, max_epochs=3, p_const_leaf=0.1, w_misc=0.1, misc=["nullgrad", "copy"]),
+                max_steps=5, max_epochs=3, p_const_leaf=0.1, w_misc=0.1, misc=["nullgrad", "copy"], p_keep_stale=0.4,
+                p_drop=0.35),
 }
